@@ -1,8 +1,9 @@
 """C10: aggregation conserves inputs.
 
 spec/agg/Aggregation.tla   keyed accumulators (three key functions side by side = tee branches), flush,
-                           merge-on-drop guards; inputs carry a value and a small bag of observations of their
-                           own (a closed histogram replayed into the aggregate's histogram); property layer = Expected(log) defined declaratively from the
+                           merge-on-drop guards (dropped normally or by unwinding: the driver chooses); inputs carry
+                           a value, a small bag of observations of their own (a closed histogram replayed into the
+                           aggregate's histogram) and a pre-aggregated value (Repeated with 0, 1 or 2 occurrences); property layer = Expected(log) defined declaratively from the
                            history (Conserved, HeldIsTail, ExactlyOne, DistinctKeys); TLC: every history
 spec/agg/AggReplay.tla     behaviour generators (exhaustive histories + walks) with the expected batch per flush
 spec/agg/WorkerAbs.tla     property layer of the worker sink (sends, merges, flushes/emits, flush barrier, exit)
@@ -54,6 +55,7 @@ def judge_replay(chk, prop, beh, results, tag):
         st["behaviours"] += 1
         st["flushes_compared"] += r["flushes"]
         st["with_guards"] += "GCreate" in ops
+        st["guard_drops_by_unwinding"] = st.get("guard_drops_by_unwinding", 0) + r.get("guard_drops_by_unwinding", 0)
         keys = [s["k"] for s in b["steps"] if s["op"] in ("Merge", "GCreate")]
         st["with_key_collision"] += len(keys) != len(set(keys))
         # the two threaded arrangements alternate between histories; both missing = switched off after a
